@@ -649,7 +649,17 @@ def build_gfa2(r, opts=None):
                 if G.TAG_RE.fullmatch(f):
                     f = "v" + f
                 fields.append(f)
-            lines.append([choice(r, CUSTOM_TYPES), fields, tags("X")])
+            tg = tags("X")
+            if o.get("custom_tagshaped", True) and fair(r, 0.25):
+                # a positional field that has the shape of a tag but cannot be one: its name is used again by a
+                # tag further right, or its value is not one of its datatype
+                if tg and chance(r, 0.5):
+                    n_, t_, _v = choice(r, tg)
+                    t2 = choice(r, "iZ")
+                    fields.append("%s:%s:%s" % (n_, t2, "7" if t2 == "i" else "w"))
+                else:
+                    fields.append(choice(r, ["xx:B:c,300", "xx:i:1x", "xx:J:{bad", "xx:H:0G", "xx:f:1.2.3", "xx:A:ab", "xx:B:q,3"]))
+            lines.append([choice(r, CUSTOM_TYPES), fields, tg])
     if o["comments"]:
         for _ in range(r.randint(0, 2)):
             lines.insert(r.randint(0, len(lines)), ["#", [choice(r, [" a comment", "nospace", "  two", ""])], []])
